@@ -23,6 +23,11 @@
 //! subset again with the same request (idempotence) and checked the same way
 //! with the first subset in the original's role.
 //!
+//! Added for the object-sharing mechanism of `klippa/src/serialize.rs`: (a') a direct
+//! Serializer stress with an independent link resolver (ser.rs); (b') built variable fonts
+//! whose HVAR index maps / ItemVariationData subtables share >= 128 leading bytes and differ
+//! afterwards, run through the same differential oracle (built.rs).
+//!
 //! Refutations caused by an already analysed defect get a signature naming
 //! that defect, each verified structurally on the subset itself (e.g.
 //! `loca-past-glyf-end`, `metrics-differ:hvar-dropped`,
@@ -47,6 +52,9 @@ use std::collections::{BTreeSet, HashMap};
 use std::rc::Rc;
 use std::sync::Arc;
 use vf_core::{fnv64, Args, Ctx, Digest, PanicPolicy, Rng};
+
+pub mod built;
+pub mod ser;
 
 pub const REPLAY: Option<fn(&mut Ctx, &Args, &Value, Option<&[u8]>)> = Some(replay);
 
@@ -1388,6 +1396,23 @@ fn everything_request(view: &View, flags: u16) -> Req {
 fn load_views(ctx: &mut Ctx) -> Vec<View> {
     let mut fonts = vf_core::corpus_fonts();
     fonts.extend(vf_core::klippa_fonts());
+    // built fonts (built.rs): corpus fonts with an HVAR made to exercise object sharing
+    let mut built_fonts = vec![];
+    for base in built::BASES {
+        if let Some(f) = fonts.iter().find(|f| f.name == base) {
+            for variant in built::VARIANTS {
+                let r = vf_core::guard(std::panic::AssertUnwindSafe(|| built::build(&f.data, variant)));
+                match r {
+                    Ok(Ok(data)) => built_fonts.push(vf_core::CorpusFont { name: built::name_of(base, variant), path: format!("built:{}:{}", variant, f.path.to_string_lossy()).into(), data: Arc::new(data) }),
+                    Ok(Err(e)) => ctx.inconclusive(format!("built font {base}/{variant}: {e}")),
+                    Err(p) => ctx.inconclusive(format!("built font {base}/{variant}: panic while building: {}", p.msg)),
+                }
+            }
+        } else if ctx.shard.0 == 0 {
+            ctx.count("built_fonts:base_missing", 1);
+        }
+    }
+    fonts.extend(built_fonts);
     let mut seen = BTreeSet::new();
     let mut views = vec![];
     for f in fonts {
@@ -1432,7 +1457,7 @@ fn exhaustive_max_chars(thorough: bool) -> usize {
 
 pub fn run(ctx: &mut Ctx, args: &Args) {
     ctx.policy = PanicPolicy::Any;
-    ctx.rule = "a (font, request, flags) case counts when klippa produced a subset whose retained set has at least two glyphs of which at least one (other than an emptied .notdef) draws a non-empty outline, and all of its kept glyphs, characters and components were compared with the original; digest = kind + font + requested chars + requested gids + flags".into();
+    ctx.rule = "a (font, request, flags) case counts when klippa produced a subset whose retained set has at least two glyphs of which at least one (other than an emptied .notdef) draws a non-empty outline, and all of its kept glyphs, characters and components were compared with the original; digest = kind + font + requested chars + requested gids + flags. Serializer stress cases (ser.rs) count when the case holds two equal-length objects that are true twins or near twins (same first 128 bytes and links but a different tail, or same bytes but different links); digest = the object descriptions".into();
     ctx.assumptions = vec![
         "observations are those of skrifa (charmap, unhinted draw, glyph_metrics); hinted output and layout tables are out of scope".into(),
         "old→new glyph relation is recovered from the plan semantics (rank in the retained set, identity under retain-gids) and cross-checked against the subset's glyph count; a count mismatch that keeps all demanded glyphs is reported as inconclusive".into(),
@@ -1443,8 +1468,19 @@ pub fn run(ctx: &mut Ctx, args: &Args) {
     let views = load_views(ctx);
     let mut item = 0usize;
     let thorough = ctx.tier.is_thorough();
+    // debugging aid: VF_C17_ONLY=ser runs only the serializer stress, =built only the built fonts
+    let only = std::env::var("VF_C17_ONLY").unwrap_or_default();
+    if !inventory && only != "built" {
+        let t0 = ctx.elapsed_s();
+        ser::run(ctx, &mut item);
+        let t1 = ctx.elapsed_s();
+        ctx.extra.insert("serializer_stress_seconds_this_shard".into(), json!(t1 - t0));
+    }
     let mut all_exhaustive = true;
     for view in &views {
+        if only == "ser" || (only == "built" && !view.path.starts_with("built:")) {
+            continue;
+        }
         let k = view.mappings.len();
         ctx.label("fonts", &format!("{} [{} glyphs, {} chars, {} settings, {}]", view.name, view.n_glyphs, k, view.settings.len(), view.kinds.join("+")));
         for kd in &view.kinds {
@@ -1461,8 +1497,11 @@ pub fn run(ctx: &mut Ctx, args: &Args) {
             Exhaustive(u32, u16, bool),
             Single(u32, u16, bool),
             Random(u64),
+            /// built fonts: keep a large random part of the glyph ids
+            LargeKeep(u64),
         }
         let mut specs: Vec<Spec> = vec![];
+        let is_built = view.path.starts_with("built:");
         // subset-to-everything under several flag sets
         let ev_flags: &[u16] = if thorough {
             &[0, F_RETAIN_GIDS, F_NOTDEF_OUTLINE, F_NOTDEF_OUTLINE | F_RETAIN_GIDS | F_NO_HINTING, F_NO_HINTING | F_SET_OVERLAPS]
@@ -1474,7 +1513,19 @@ pub fn run(ctx: &mut Ctx, args: &Args) {
         }
         let big = view.n_glyphs > 2000;
         let huge_charset = k > 50_000;
-        if k <= exhaustive_max_chars(thorough) {
+        if is_built {
+            specs.push(Spec::Everything(0));
+            specs.push(Spec::Everything(F_NOTDEF_OUTLINE | F_RETAIN_GIDS | F_NO_HINTING));
+            for i in 0..ctx.tier.pick(40u64, 1500) {
+                specs.push(Spec::LargeKeep(i));
+            }
+            if ctx.shard.0 == 0 {
+                ctx.count("built_fonts", 1);
+            }
+        }
+        if is_built {
+            all_exhaustive = false;
+        } else if k <= exhaustive_max_chars(thorough) {
             // exhaustive over all subsets of the mapped characters
             let flagsets: &[u16] = if thorough {
                 &[
@@ -1505,7 +1556,7 @@ pub fn run(ctx: &mut Ctx, args: &Args) {
         }
         // every glyph alone, requested by id: per-glyph data of every table is
         // exercised for every glyph (and closure, renumbering to gid 1..)
-        {
+        if !is_built {
             let stride = if thorough || view.n_glyphs <= 1400 { 1 } else { (view.n_glyphs / 400).max(1) };
             let mut g = 0;
             while g < view.n_glyphs {
@@ -1522,7 +1573,9 @@ pub fn run(ctx: &mut Ctx, args: &Args) {
                 g += stride;
             }
         }
-        let n_random: u64 = if huge_charset {
+        let n_random: u64 = if is_built {
+            ctx.tier.pick(40, 1500)
+        } else if huge_charset {
             ctx.tier.pick(100, 600)
         } else if k <= exhaustive_max_chars(thorough) {
             ctx.tier.pick(300, 8000)
@@ -1547,6 +1600,13 @@ pub fn run(ctx: &mut Ctx, args: &Args) {
                     (Req { chars, gids: vec![], flags: *f, shape: "exhaustive-chars" }, *idem)
                 }
                 Spec::Single(g, f, idem) => (Req { chars: vec![], gids: vec![*g], flags: *f, shape: "gid:single" }, *idem),
+                Spec::LargeKeep(i) => {
+                    let mut rng = Rng::derive(ctx.seed, &format!("c17-keep:{}", view.name), *i);
+                    let num = *rng.pick(&[6u64, 8, 9, 10]); // keep probability /10
+                    let gids: Vec<u32> = (0..view.n_glyphs).filter(|_| rng.below(10) < num).collect();
+                    let flags = pick_flags(&mut rng);
+                    (Req { chars: vec![], gids, flags, shape: "gid:large-keep" }, rng.chance(1, 4))
+                }
                 Spec::Random(i) => {
                     // one independent stream per case: no dependence on the shard count
                     let mut rng = Rng::derive(ctx.seed, &format!("c17-req:{}", view.name), *i);
@@ -1599,6 +1659,10 @@ fn run_one(ctx: &mut Ctx, view: &View, req: &Req, idem: bool) {
 /// (non-abbreviated) `chars` / `gids` arrays.
 fn replay(ctx: &mut Ctx, _args: &Args, rec: &Value, _bytes: Option<&[u8]>) {
     ctx.policy = PanicPolicy::Any;
+    if rec["detail"]["ser_case"].is_object() {
+        ser::replay(ctx, &rec["detail"]["ser_case"], rec["detail"]["id"].as_str().unwrap_or("replay"));
+        return;
+    }
     let d = if rec["detail"]["case"].is_object() { &rec["detail"]["case"] } else { &rec["detail"] };
     let path = d["path"].as_str().unwrap_or("");
     let r = if d["root_request"].is_object() { &d["root_request"] } else { &d["request"] };
@@ -1606,11 +1670,28 @@ fn replay(ctx: &mut Ctx, _args: &Args, rec: &Value, _bytes: Option<&[u8]>) {
         ctx.inconclusive("replay: request not parsable");
         return;
     };
-    let Ok(data) = std::fs::read(path) else {
-        ctx.inconclusive(format!("replay: cannot read {path}"));
+    // built fonts: "built:<variant>:<path of the base font>"
+    let (built_variant, base_path) = match path.strip_prefix("built:").and_then(|r| r.split_once(':')) {
+        Some((v, p)) => (Some(v), p),
+        None => (None, path),
+    };
+    let Ok(mut data) = std::fs::read(base_path) else {
+        ctx.inconclusive(format!("replay: cannot read {base_path}"));
         return;
     };
-    let name = std::path::Path::new(path).file_name().map(|s| s.to_string_lossy().to_string()).unwrap_or_default();
+    let mut name = std::path::Path::new(base_path).file_name().map(|s| s.to_string_lossy().to_string()).unwrap_or_default();
+    if let Some(v) = built_variant {
+        match built::build(&data, v) {
+            Ok(b) => {
+                data = b;
+                name = built::name_of(&name, v);
+            }
+            Err(e) => {
+                ctx.inconclusive(format!("replay: cannot rebuild {path}: {e}"));
+                return;
+            }
+        }
+    }
     let index = if name.ends_with(".ttc") { Some(0) } else { None };
     match View::build(&name, path, Arc::new(data), index, None, ctx.seed) {
         Ok(view) => {
